@@ -39,7 +39,14 @@ func init() {
 			gateNew := make(chan struct{})
 			var shutdownReturned atomic.Bool
 			var startedAfterReturn atomic.Int32
-			s := &fasthttp.Server{Logger: nopLogger{}, ReduceMemoryUsage: reduceMem,
+			// 'r' (last letter, after connections that stay open): one more connection is handed to ServeConn while
+			// Server.Concurrency is exhausted: it is turned away with 503 — and must not disturb the accounting Shutdown relies on
+			conc := 0
+			if strings.HasSuffix(script, "r") {
+				conc = len(script) - 1
+			}
+			rejectNote := ""
+			s := &fasthttp.Server{Logger: nopLogger{}, ReduceMemoryUsage: reduceMem, Concurrency: conc,
 				ConnState: func(_ net.Conn, st fasthttp.ConnState) {
 					if st == fasthttp.StateNew && parkNew.CompareAndSwap(true, false) {
 						<-gateNew
@@ -109,6 +116,33 @@ func init() {
 				return string(b[:n]), nil
 			}
 			for i := 0; i < len(script); i++ {
+				if script[i] == 'r' {
+					// every earlier connection is being served (idle or in its handler): wait until the server counts them
+					dl0 := time.Now().Add(3 * time.Second)
+					for int(s.GetCurrentConcurrency()) < conc && time.Now().Before(dl0) {
+						time.Sleep(time.Millisecond)
+					}
+					c1, c2 := net.Pipe()
+					errCh := make(chan error, 1)
+					go func() { errCh <- s.ServeConn(c1) }()
+					c2.SetReadDeadline(time.Now().Add(5 * time.Second))
+					resp, rerr := http.ReadResponse(bufio.NewReader(c2), nil)
+					if rerr != nil {
+						rejectNote = "no response from the rejected ServeConn: " + rerr.Error()
+					} else {
+						resp.Body.Close()
+						if resp.StatusCode != 503 {
+							rejectNote = fmt.Sprintf("ServeConn beyond Concurrency=%d answered %d", conc, resp.StatusCode)
+						}
+					}
+					c2.Close()
+					select {
+					case <-errCh:
+					case <-time.After(5 * time.Second):
+						rejectNote = "the rejected ServeConn did not return"
+					}
+					continue
+				}
 				if script[i] == 'w' {
 					parkNew.Store(true)
 				}
@@ -247,6 +281,9 @@ func init() {
 					if warmErr != "" {
 						return Verdict{VSpec, "first-cycle-failed", desc + ": " + warmErr}
 					}
+					if rejectNote != "" {
+						return Verdict{VInconclusive, "serveconn-not-rejected", desc + ": " + rejectNote}
+					}
 					if err != nil {
 						return Verdict{VSpec, "shutdown-error-or-hang", desc}
 					}
@@ -286,6 +323,13 @@ func init() {
 				}
 				if r.Chance(30) {
 					sc = append(sc, 'w') // always last: its parked hook blocks the accept loop
+				} else if r.Chance(30) {
+					// connections that all stay open, then a ServeConn call that is turned away
+					sc = sc[:0]
+					for j, m := 0, 1+r.Intn(3); j < m; j++ {
+						sc = append(sc, "hhki"[r.Intn(4)])
+					}
+					sc = append(sc, 'r')
 				}
 				emit("shutdown", sc, []byte{byte([]int{0, 5, 20, 60}[r.Intn(4)])}, B(r.Pick([]string{"rm=0", "rm=1", "rm=0,cy=1", "rm=1,cy=1"})))
 			}
